@@ -127,11 +127,14 @@ def evaluate(cases):
             v = c["vals"][r["val"]]
             spec_exprs.append("spec_revalidate %s %s %s %s" % (env_coq(c["env"]), cb(r["strict"]), rt_coq(c["rt"]), val_coq(d)))
             spec_exprs.append("show_bool (is_projection 100 %s %s)" % (val_coq(d), val_coq(v)))
+            # "consists only of declared parts of the input": the data is also accepted when undeclared keys are disallowed
+            spec_exprs.append("spec_revalidate %s true %s %s" % (env_coq(c["env"]), rt_coq(c["rt"]), val_coq(d)))
             spec_idx.append(ri)
     sres = common.run_coq_cases(IMPORTS, spec_exprs, tag="C03spec")
     for k, ri in enumerate(spec_idx):
-        rows[ri]["revalidate"] = sres[2 * k]
-        rows[ri]["projection"] = sres[2 * k + 1]
+        rows[ri]["revalidate"] = sres[3 * k]
+        rows[ri]["projection"] = sres[3 * k + 1]
+        rows[ri]["declared_only"] = sres[3 * k + 2]
     return rows
 
 
@@ -165,6 +168,7 @@ def failures(rows):
         if r.get("data") is not None:
             if r.get("revalidate") != "t": kinds.append("data-not-revalidated")
             if r.get("projection") != "t": kinds.append("data-not-a-projection")
+            if r.get("revalidate") == "t" and r.get("declared_only") == "f": kinds.append("data-has-undeclared-parts")
             if P.startswith("ok:") and P2 != P: kinds.append("not-idempotent")
             if r["order"] == "sorted":
                 o = by_key.get((r["case"], r["val"], r["strict"], "input"))
@@ -181,13 +185,13 @@ KNOWN_CLASSES = {
     "disc_unprimitive_value": lambda k, tags, vf: "Disc" in tags and "CannotConvert" in k,
     "bigint_stringify": lambda k, tags, vf: "bigint" in vf and "StringifyBigInt" in k,
     "union_deepmerge": lambda k, tags, vf: "AnyOf" in tags and k in (
-        "data-not-revalidated", "data-not-a-projection", "not-idempotent", "key-order-changes-content",
+        "data-not-revalidated", "data-not-a-projection", "data-has-undeclared-parts", "not-idempotent", "key-order-changes-content",
         "parse-throws:!Internal", "safeParse-throws:!Internal"),
     "allof_spread": lambda k, tags, vf: "AllOf" in tags and k in (
-        "data-not-revalidated", "data-not-a-projection", "not-idempotent", "key-order-changes-content",
+        "data-not-revalidated", "data-not-a-projection", "data-has-undeclared-parts", "not-idempotent", "key-order-changes-content",
         "parse-throws:!Internal", "safeParse-throws:!Internal"),
     "proto_named_keys": lambda k, tags, vf: "protokey" in vf and k in (
-        "data-not-revalidated", "data-not-a-projection", "not-idempotent", "key-order-changes-content"),
+        "data-not-revalidated", "data-not-a-projection", "data-has-undeclared-parts", "not-idempotent", "key-order-changes-content"),
 }
 
 
